@@ -121,6 +121,14 @@ func (g *gen) genGlobals() {
 			v.wide, v.lo, v.hi = true, -wideB, wideB
 		case "string":
 			v.ascii, v.growing, v.minLen = e.ascii, !e.short, 0
+			switch {
+			case !v.growing:
+				v.maxLen = 16
+			case e.maxLen <= strStore:
+				v.maxLen = strVar
+			default:
+				v.maxLen, v.noAppend = e.maxLen, true
+			}
 		case "[]int":
 			v.minLen, v.appends = e.minLen, e.minLen
 		case "map[int]int", "map[string]int":
@@ -374,12 +382,14 @@ func (g *gen) genFunc(kind string) {
 				v.wide, v.lo, v.hi = true, -wideB, wideB // assignable parameter
 			}
 		case "string":
-			v.ascii = true
+			v.ascii, v.maxLen = true, 16
 			if !sig.exported {
 				v.ascii = false
 				v.growing = true // unknown length
+				v.maxLen, v.noAppend = strVar, true
 			}
 		case "[]byte":
+			v.maxLen = 16
 			v.ro = true // arguments arrive as immutable byte strings in the VM
 		case "[]int":
 			v.ro = f.pure
@@ -403,10 +413,10 @@ func (g *gen) genFunc(kind string) {
 			v.wide, v.lo, v.hi = true, -wideB, wideB
 		}
 		if r.Type == "string" {
-			v.growing, v.ascii = true, false
+			v.growing, v.ascii, v.maxLen = true, false, strVar
 		}
 		if r.Type == "[]byte" {
-			v.maybeNil, v.growing = true, true
+			v.maybeNil, v.growing, v.maxLen = true, true, costCap
 		}
 		g.add(v)
 	}
